@@ -424,6 +424,7 @@ def run_shards(binary, nshards, args, seed, tier, timeout, env=None, outdir=None
 
 def finish(pid, tier, seed, level, res, t0, rule, nontrivial, evaluations, min_nontrivial, assumptions, extra_cov=None, keep_out=False):
     """Known-findings matching, VIOLATION / KNOWN-FINDING lines, evidence file, exit code."""
+    assert level in ("exploration", "fault_enumeration", "model_checking", "proof", "translation_validation", "other"), level
     findings = load_findings()
     os.makedirs(os.path.join(VERIF, "replays"), exist_ok=True)
     os.makedirs(os.path.join(VERIF, "evidence"), exist_ok=True)
